@@ -112,3 +112,7 @@ func TestC04Step(t *testing.T) {
 		Rule: "generated spec (ECMAScript and native actions/guards from the action language, all error settings, @var targets, user error node) x state (known/unknown node, bindings incl. permanent keys) x pending message or none; Spec.Step's (To, Consumed, Emitted, error) must be in the set the executable README rule allows; non-trivial = an action ran, a guard decided, a later branch was taken or all branches were tried"},
 		genStep, checkStep)
 }
+
+func FuzzC04Step(f *testing.F) {
+	ev.Fuzz(f, ev.Opts{Property: "C04", Name: "step"}, genStep, checkStep)
+}
